@@ -192,13 +192,26 @@ static int c34_alive(int j) { return c34_rec[j].calls == 0; }
 /* ------------------------------------------------------------------ cancel */
 /* evdns_cancel_request on a solver-chosen request, optionally twice, optionally followed by cancelling the other one:
  * DNS_ERR_CANCEL exactly once for each cancelled request, nothing for the other; a waiting request is promoted. */
+#ifndef C34_J
+#define C34_J 0            /* which request the step is applied to (structure: enumerated per obligation) */
+#endif
+#ifndef C34_TWICE
+#define C34_TWICE 0
+#endif
+#ifndef C34_BOTH
+#define C34_BOTH 0
+#endif
+/* library-made cleanup at the end of a step harness (also: nothing may be left allocated, --memory-leak-check) */
+static void c34_cleanup(void)
+{
+	evdns_base_free(c34_base, 0);
+	c34_base_freed = 1;
+	c34_run_deferred();
+}
 void harness_cancel(void)
 {
-	int j = vp_bool(), twice = vp_bool(), both = vp_bool();
+	const int j = C34_J, twice = C34_TWICE, both = C34_BOTH;
 	c34_setup();
-#if C34_NREQ == 1
-	j = 0; both = 0;
-#endif
 	if (j == 0) { evdns_cancel_request(c34_base, c34_h[0]); if (twice) evdns_cancel_request(c34_base, c34_h[0]); }
 	else { evdns_cancel_request(c34_base, c34_h[1]); if (twice) evdns_cancel_request(NULL, c34_h[1]); }
 	VP_ASSERT(c34_rec[0].calls == 0 && c34_rec[1].calls == 0, "C34: cancel callback is deferred, not run from evdns_cancel_request");
@@ -214,12 +227,20 @@ void harness_cancel(void)
 	else {
 		VP_ASSERT(c34_rec[1 - j].calls == 0, "C34: callback of a request that was not cancelled");
 		VP_ASSERT(c34_base->global_requests_inflight == 1 && c34_base->global_requests_waiting == 0, "C34: the other request must be inflight after the cancel");
-		VP_WITNESS("C34 cancel: one of two requests cancelled, the other one inflight");
 	}
+#if !C34_BOTH
+	VP_WITNESS("C34 cancel: one of two requests cancelled, the other one inflight");
+#endif
 #endif
 	c34_check_base("cancel, callbacks run");
-	if (twice) VP_WITNESS("C34 cancel: cancelled twice, one callback");
-	if (both) VP_WITNESS("C34 cancel: both cancelled");
+#if C34_TWICE
+	VP_WITNESS("C34 cancel: cancelled twice, one callback");
+#endif
+#if C34_BOTH
+	VP_WITNESS("C34 cancel: both cancelled");
+#endif
+	VP_WITNESS("C34 cancel: done");
+	c34_cleanup();
 }
 
 /* ----------------------------------------------------------------- timeout */
@@ -230,16 +251,16 @@ void harness_cancel(void)
 #ifndef C34_FIRES
 #define C34_FIRES 2
 #endif
+#ifndef C34_J2
+#define C34_J2 C34_J        /* request whose timer fires second */
+#endif
 void harness_timeout(void)
 {
 	int f, j;
 	c34_setup();
 	for (f = 0; f < C34_FIRES; f++) {
 		struct request *req; int tx, gave_up;
-		j = vp_bool();
-#if C34_NREQ == 1
-		j = 0;
-#endif
+		j = (f == 0) ? C34_J : C34_J2;
 		/* the event loop only fires timers that are pending */
 		if (!c34_alive(j)) break;
 		req = j == 0 ? c34_h[0]->current_req : c34_h[1]->current_req;
@@ -247,8 +268,11 @@ void harness_timeout(void)
 		tx = req->tx_count;
 		gave_up = tx >= c34_base->global_max_retransmits;
 		(void)event_del(&req->timeout_event);          /* a timer that fires is no longer pending */
-		evdns_request_timeout_callback(-1, EV_TIMEOUT, req);
-		VP_ASSERT(c34_rec[0].calls == 0 && c34_rec[1].calls == 0, "C34: timeout callback is deferred");
+		{
+			int c0 = c34_rec[0].calls, c1 = c34_rec[1].calls;
+			evdns_request_timeout_callback(-1, EV_TIMEOUT, req);
+			VP_ASSERT(c34_rec[0].calls == c0 && c34_rec[1].calls == c1, "C34: timeout callback is deferred");
+		}
 		c34_run_deferred();
 		if (gave_up) {
 			VP_ASSERT(c34_rec[j].calls == 1 && c34_rec[j].result == DNS_ERR_TIMEOUT, "C34: request that used up its transmissions: callback exactly once with DNS_ERR_TIMEOUT");
@@ -257,13 +281,61 @@ void harness_timeout(void)
 			struct request *now = j == 0 ? c34_h[0]->current_req : c34_h[1]->current_req;
 			VP_ASSERT(c34_rec[j].calls == 0, "C34: callback although the request is being retransmitted");
 			VP_ASSERT(now == req && req->tx_count == tx + 1, "C34: retransmission must count as a transmission of the same request");
+#if C34_ATTEMPTS > 1
 			VP_WITNESS("C34 timeout: retransmitted");
+#endif
 		}
 #if C34_NREQ == 2
 		VP_ASSERT(c34_rec[1 - j].calls <= 1, "C34: more than one callback for a request");
 #endif
 		c34_check_base("timeout");
 	}
+	VP_ASSERT(c34_rec[0].calls <= 1 && c34_rec[1].calls <= 1, "C34: more than one callback for a request");
+	c34_cleanup();
+	VP_ASSERT(c34_rec[0].calls <= 1 && c34_rec[1].calls <= 1, "C34: more than one callback for a request (after the base was freed)");
+}
+
+/* ------------------------------------------------------------- timeout, TCP */
+/* Requests over TCP (DNS_QUERY_USEVC) share the nameserver's one connection: when the timeout of one of them fires
+ * and it has transmissions left, the connection is torn down and ALL TCP requests of that nameserver are walked
+ * (retransmit_all_tcp_requests_for): those with transmissions left are re-sent, the others are given up.
+ * C34_STAGGER=0: both requests were made together (same tx_count), the timer of request C34_J fires.
+ * C34_STAGGER=1: request 0 is made, its timer fires once (retransmitted, tx_count 2 of 2), THEN request 1 is made
+ *                (tx_count 1) and its timer fires: the walk meets request 0, which has used up its transmissions. */
+#ifndef C34_STAGGER
+#define C34_STAGGER 0
+#endif
+void harness_timeout_tcp(void)
+{
+	struct request *req; int j = C34_J;
+	c34_setup();             /* C34_TCP, C34_ATTEMPTS == 2; C34_NREQ == 2 (stagger 0) or 1 (stagger 1) */
+#if C34_STAGGER
+	req = c34_h[0]->current_req;
+	__CPROVER_assume(req != NULL && vpe_event_is_pending(&req->timeout_event));
+	(void)event_del(&req->timeout_event);
+	evdns_request_timeout_callback(-1, EV_TIMEOUT, req);
+	VP_ASSERT(c34_rec[0].calls == 0 && vpe_ndeferred == 0 && c34_h[0]->current_req == req && req->tx_count == 2, "C34: first TCP timeout must retransmit");
+	c34_h[1] = evdns_base_resolve_ipv4(c34_base, "a", DNS_QUERY_NO_SEARCH | DNS_QUERY_USEVC, c34_cb, &c34_rec[1]);
+	__CPROVER_assume(c34_h[1] != NULL);
+	c34_check_base("second request");
+	j = 1;
+#endif
+	req = j == 0 ? c34_h[0]->current_req : c34_h[1]->current_req;
+	__CPROVER_assume(req != NULL && vpe_event_is_pending(&req->timeout_event));
+	(void)event_del(&req->timeout_event);
+	evdns_request_timeout_callback(-1, EV_TIMEOUT, req);
+	VP_ASSERT(c34_rec[0].calls == 0 && c34_rec[1].calls == 0, "C34: timeout callback is deferred");
+	c34_run_deferred();
+#if C34_STAGGER
+	VP_ASSERT(c34_rec[0].calls == 1 && c34_rec[0].result == DNS_ERR_TIMEOUT, "C34: TCP request that used up its transmissions: callback exactly once with DNS_ERR_TIMEOUT");
+	VP_ASSERT(c34_rec[1].calls == 0, "C34: TCP request with transmissions left must be retransmitted, not answered");
+#else
+	VP_ASSERT(c34_rec[0].calls == 0 && c34_rec[1].calls == 0, "C34: TCP requests with transmissions left must be retransmitted, not answered");
+	VP_ASSERT(c34_h[0]->current_req->tx_count == 2 && c34_h[1]->current_req->tx_count == 2, "C34: both TCP requests of the nameserver are retransmitted");
+#endif
+	c34_check_base("tcp timeout");
+	VP_WITNESS("C34 tcp timeout: connection torn down, requests of the nameserver walked");
+	c34_cleanup();
 	VP_ASSERT(c34_rec[0].calls <= 1 && c34_rec[1].calls <= 1, "C34: more than one callback for a request");
 }
 
@@ -283,12 +355,19 @@ static int c34_expected_error(unsigned flags, int have_reply, int have_answer)
 }
 void harness_reply(void)
 {
-	int j = vp_bool(), have_reply = vp_bool(), have_answer = vp_bool(), err, tx, terminating;
+#ifndef C34_HAVE_REPLY
+#define C34_HAVE_REPLY 1
+#endif
+#ifndef C34_HAVE_ANSWER
+#define C34_HAVE_ANSWER 1
+#endif
+	const int j = C34_J, have_reply = C34_HAVE_REPLY, have_answer = C34_HAVE_ANSWER; int err, tx, terminating;
 	unsigned flags = vp_u16();
 	struct reply reply; struct request *req; struct nameserver *ns0;
 	c34_setup();
-#if C34_NREQ == 1
-	j = 0;
+#ifdef C34_RCODE     /* outcome class fixed per obligation.  cbmc does not fold (x & ~m | c) & m, so the other header bits are
+                      * fixed too (QR RD RA = 0x8180): reply_handle reads nothing but RCODE and TC */
+	flags = 0x8180u | (unsigned)C34_RCODE | (C34_TCBIT ? 0x200u : 0u);
 #endif
 	req = j == 0 ? c34_h[0]->current_req : c34_h[1]->current_req;
 	__CPROVER_assume(req != NULL && req->ns != NULL);      /* replies are matched to inflight requests only */
@@ -320,22 +399,22 @@ void harness_reply(void)
 		int want = err == DNS_ERR_SERVERFAILED ? DNS_ERR_TIMEOUT : err;
 		VP_ASSERT(c34_rec[j].calls == 1, "C34: answered request: callback exactly once");
 		VP_ASSERT(c34_rec[j].result == want, "C34: answered request: result code differs from the reply's outcome");
-		if (err == DNS_ERR_NONE) { VP_ASSERT(c34_rec[j].type == DNS_IPv4_A && c34_rec[j].count == 1, "C34: answer passed to the callback"); VP_WITNESS("C34 reply: answer delivered"); }
-		if (err == DNS_ERR_NOTEXIST) VP_WITNESS("C34 reply: NXDOMAIN delivered");
-		if (err == DNS_ERR_NODATA) VP_WITNESS("C34 reply: NODATA delivered");
+		if (err == DNS_ERR_NONE) VP_ASSERT(c34_rec[j].type == DNS_IPv4_A && c34_rec[j].count == 1, "C34: answer passed to the callback");
 	} else {
 		struct evdns_request *h = j == 0 ? c34_h[0] : c34_h[1];
 		VP_ASSERT(c34_rec[j].calls == 0, "C34: callback although the request goes on (retransmission / TCP fallback / reissue)");
 		VP_ASSERT(h->current_req != NULL, "C34: request that goes on has no current request");
-		if (err == DNS_ERR_TRUNCATED) { VP_ASSERT(h->tcp_flags & DNS_QUERY_USEVC, "C34: truncated reply: request must continue over TCP"); VP_WITNESS("C34 reply: truncated, retried over TCP"); }
-		if (err == DNS_ERR_SERVERFAILED) VP_WITNESS("C34 reply: SERVFAIL, retransmitted");
-		if (err == DNS_ERR_REFUSED) { VP_ASSERT(h->current_req->ns != ns0, "C34: reissued request must go to another nameserver"); VP_WITNESS("C34 reply: REFUSED, reissued to the other nameserver"); }
+		if (err == DNS_ERR_TRUNCATED) VP_ASSERT(h->tcp_flags & DNS_QUERY_USEVC, "C34: truncated reply: request must continue over TCP");
+		if (err == DNS_ERR_REFUSED || err == DNS_ERR_NOTIMPL) VP_ASSERT(h->current_req->ns != ns0, "C34: reissued request must go to another nameserver");
 	}
 #if C34_NREQ == 2
 	VP_ASSERT(c34_rec[1 - j].calls == 0, "C34: callback of a request that got no reply");
 #endif
 	if (have_answer && reply.data.a != NULL) mm_free(reply.data.a);   /* ownership stays with the caller unless delivered */
 	c34_check_base("reply");
+	VP_WITNESS("C34 reply: reply handled, callbacks run, invariant checked");
+	c34_cleanup();
+	VP_ASSERT(c34_rec[0].calls <= 1 && c34_rec[1].calls <= 1, "C34: more than one callback for a request (after the base was freed)");
 }
 
 /* -------------------------------------------------------------------- free */
@@ -345,7 +424,13 @@ void harness_reply(void)
  * callbacks touches nothing that was freed, nothing leaks. */
 void harness_free(void)
 {
-	int fail = vp_bool(), cancel0 = vp_bool(), pending_before;
+#ifndef C34_FAIL
+#define C34_FAIL 1
+#endif
+#ifndef C34_CANCEL0
+#define C34_CANCEL0 0
+#endif
+	const int fail = C34_FAIL, cancel0 = C34_CANCEL0; int pending_before;
 	c34_setup();
 	if (cancel0) evdns_cancel_request(c34_base, c34_h[0]);
 	pending_before = vpe_pending_events;
@@ -361,9 +446,7 @@ void harness_free(void)
 	VP_ASSERT(c34_rec[1].calls == (fail ? 1 : 0) && (!fail || c34_rec[1].result == DNS_ERR_SHUTDOWN), "C34: evdns_base_free(fail_requests): DNS_ERR_SHUTDOWN exactly once, otherwise no callback (second request)");
 #endif
 	(void)pending_before;
-	if (fail && !cancel0) VP_WITNESS("C34 free: all requests failed with DNS_ERR_SHUTDOWN");
-	if (!fail) VP_WITNESS("C34 free: requests dropped silently");
-	if (cancel0 && fail) VP_WITNESS("C34 free: one cancelled, one shut down");
+	VP_WITNESS("C34 free: base freed, callbacks run");
 }
 
 /* -------------------------------------------------------------------- txid */
@@ -383,4 +466,6 @@ void harness_txid(void)
 	VP_ASSERT(request_find_from_trans_id(c34_base, id) == NULL, "C34: picked id is found inflight");
 	if (n == 2 && c34_id_draws >= 2) VP_WITNESS("C34 txid: fresh id after a rejected draw, two requests inflight");
 	if (n >= 1) VP_WITNESS("C34 txid: id picked with requests inflight");
+	c34_rng_symbolic = 0;
+	c34_cleanup();
 }
